@@ -47,37 +47,61 @@ def drain_ready_blocks(S):
 
 
 def no_abandonment(ctx, rid, S):
-    """R5.6 / R6.5: from the first possible push of a job future, no path returns from the
-    scheduler without passing a completed drain of the job-future stream."""
-    ba = BA.of(S)
-    pushes = ba.calls(PUSH)
-    ctx.floor(rid, "job-future push sites in scheduler", len(pushes), 2)
-    drains = drain_ready_blocks(S)
-    ctx.floor(rid, "awaited drain of the job-future stream", len(drains), 1)
+    """R5.6 / R6.5: once a job future may have been pushed, the body that owns the job-future
+    stream does not return without a completed drain of the stream. If the scheduling passes
+    (S, the body that pushes) are a coroutine nested in the owner O and awaited there, any exit of S
+    is fine as long as every path in O from S's completion to O's return passes the drain."""
+    prog = ctx.prog
+    O = anchors.stream_owner(prog)
+    oba = BA.of(O)
+    sba = BA.of(S)
+    pushes = sba.calls(PUSH)
+    ctx.floor(rid, "job-future push sites in the scheduler", len(pushes), 2)
+    drains = drain_ready_blocks(O)
+    ctx.floor(rid, "awaited drain of the job-future stream in its owner", len(drains), 1)
     if not pushes or not drains:
         return
+    # the drain must be of *this* stream and must be the last thing before the result is produced
+    if O.key == S.key:
+        starts = pushes
+        ba = sba
+        B = S
+    else:
+        # S must be constructed and awaited by O (directly nested coroutine)
+        aw = [(p, y, r, c) for (p, y, r, c) in oba.awaits() if c == S.key]
+        nested = strip_generics(S.parent or "") == O.key and len(aw) >= 1
+        if not ctx.ob(rid, "%s|passes-awaited-by-stream-owner" % S.key, nested, where=S.span,
+                      detail="the scheduling passes are a coroutine awaited by %s, which owns the stream" % O.key if nested else
+                      "the body that pushes job futures is neither the stream owner nor awaited by it"):
+            return
+        starts = [p for (p, y, r, c) in aw]      # from the first poll of S on: S may have pushed
+        ba = oba
+        B = O
     rets = ba.returns()
-    after_push = ba.reach_from(pushes)
     tries = ba.try_sites()
-    named = ordinal_keys([(try_source_name(S, src), (br, brk, cont, src)) for (br, brk, cont, src) in sorted(tries)])
+    after = ba.reach_from(starts, avoid=frozenset(drains))   # reachable before any drain completed
+    named = ordinal_keys([(try_source_name(B, src), (br, brk, cont, src)) for (br, brk, cont, src) in sorted(tries)])
     residuals = set()
     for name, (br, brk, cont, src) in named:
         if brk is None:
             continue
         residuals.add(brk)
-        if brk not in after_push:
+        if brk not in after:
             continue
-        # does the error edge reach return without the drain?
         p = ba.path([brk], rets, avoid=frozenset(drains), incl=True)
-        ctx.ob(rid, "%s|early-return-via-?|%s" % (S.key, name), p is None, where=ctx.where(S, br),
-               detail=("`?` on %s returns from the scheduler while job futures (and the locks they own) may be outstanding; "
+        ctx.ob(rid, "%s|early-return-via-?|%s" % (B.key, name), p is None, where=ctx.where(B, br),
+               detail=("`?` on %s returns while job futures (and the locks they own) may be outstanding; "
                        "path to return avoids the drain" % name) if p else "error edge passes the drain",
                witness={"path": p[:12] if p else None})
-    # any other exit
-    p = ba.path(pushes, rets, avoid=frozenset(drains) | residuals)
-    ctx.ob(rid, "%s|non-?-exit" % S.key, p is None, where=ctx.where(S, p[-1]) if p else S.span,
-           detail="a non-`?` path from a push to return avoids the drain" if p else "every other exit after a push passes the drain",
+    p = ba.path(starts, rets, avoid=frozenset(drains) | residuals)
+    ctx.ob(rid, "%s|every-exit-drains" % B.key, p is None, where=ctx.where(B, p[-1]) if p else B.span,
+           detail="a path from the first possible push to return avoids the drain" if p else "every exit after the first possible push passes the drain of the job-future stream",
            witness={"path": p[:20] if p else None})
+    if O.key != S.key:
+        # the suspended passes are not dropped half-way either: O awaits S to completion before draining
+        readies = [r for (p_, y, r, c) in oba.awaits() if c == S.key and r is not None]
+        ok = all(any(oba.dominates(r, d) for r in readies) for d in drains)
+        ctx.ob(rid, "%s|drain-after-passes-complete" % O.key, ok, where=O.span, detail="the drain is dominated by the completion of the scheduling passes")
 
 
 def cmp_const_switches(body, value=0):
